@@ -336,8 +336,11 @@ def stream_shared(ctx):
                 # long non-ASCII documentation on the types merged first (byte length != character count)
                 cd, fd = [" " + "測定値（マイクロメートル）。負の値は許されません。" * 6, " Größe in µm – Überprüfung"], [" 寸法の単位はマイクロメートルです。" * 4]
             if v == 1:
-                # fixed witnesses: a blank line inside a block (known finding), `export type` inside documentation
-                cd, fd = [["\n para one\n\n para two\n "], [" mentions export type Zzz = 1;"], [" plain"]][k], ([" export type Yyy = 2;"] if k == 2 else [])
+                # fixed witness: a blank line inside a block (known finding)
+                cd, fd = [["\n para one\n\n para two\n "], [" plain"], [" plain too"]][k], []
+            if v == 3:
+                # fixed witness: `export type` inside documentation, once with an unrelated word, once with the name of another type of this very file
+                cd, fd = [[" plain"], [" mentions export type Zzz = 1;"], [" plain"]][k], ([f" export type Alpha{v} = 2; (the name of another type of this file)"] if k == 2 else [])
             if cd: it["attrs"]["docs"] = cd
             if fd: it["fields"][1]["attrs"]["docs"] = fd
             docs.append((cd, fd))
